@@ -15,7 +15,7 @@ from __future__ import annotations
 
 import copy
 import random
-from typing import Any, Dict, List, Optional
+from typing import Any, Dict, List, Optional, Tuple
 
 TEXTS = ["tell me about apple", "fig and apple", "what is kiwi", "pear", "apple", "nothing here", "tiny",
          # the same request up to case / outer whitespace / inner whitespace / unicode normal form: whatever a key
@@ -351,7 +351,7 @@ def dim_class(cache: str, dim: str) -> str:
 
 # dimension classes recorded as OPEN findings (listed last when a minimal history needs several dimensions, so that a
 # new dimension is never hidden behind a recorded one)
-OPEN_CLASSES = {"t2": ["node_label", "state", "hybrid"],
+OPEN_CLASSES = {"t2": ["node_label", "state", "hybrid", "leaf:t2.quality.normalizer.enabled"],
                 "turn": ["agent", "t1_labels", "node_label", "config", "memory_add", "now"],
                 "t1": []}
 
@@ -390,6 +390,128 @@ def classify(case: dict, div: dict) -> str:
     known = OPEN_CLASSES.get(cache, [])
     fresh = [d for d in dims if d not in known]
     return f"C05:{cache}:{(fresh or dims)[0]}"
+
+
+# ------------------------------------------------------------------------------------------------
+# attribution by READ-SET DIFFERENCE: a stale hit is classified by what differs in the stage's read-set between the
+# request that FILLED the entry (same real key, a miss) and the request that was SERVED from it — not by the names of
+# the ops in the history.
+# ------------------------------------------------------------------------------------------------
+T1_FIELDS = {"text": "text", "seeds": "text", "decay": "decay_rate", "mult": "edge_mult", "radius": "radius_cap", "iter": "iter_cap",
+             "layers": "iter_cap_layers", "queue": "queue_budget", "relax": "relax_cap", "nb": "node_budget",
+             "sIters": "slice_t1_iters", "sPops": "slice_t1_pops", "fr": "perf_frontier", "vis": "perf_visited",
+             "ded": "perf_dedupe", "perf": "perf_enabled", "gid": "gid"}
+T2_FIELDS = {"tiers": "tiers", "text": "text", "labels": "q_text", "days": "recent_days", "thr": "sim_threshold", "topM": "top_m",
+             "sliceK": "slice_t2_k", "scope": "owner_scope", "owner": "agent", "k": "k_retrieval", "now": "now",
+             "rank": "ranking", "rcap": "residual_cap", "ksurf": "k_surface", "ver": "index_version",
+             "labelMap": "node_label"}
+TURN_CLASS = {"agent": "agent", "q_text": "t1_labels", "node_label": "node_label", "now": "now", "text": "text",
+              "slice_t2_k": "slice_t2_k", "index_version": "memory_add", "index_content": "memory_add", "state": "state"}
+
+
+def _diff_t1(a: dict, b: dict, same_world: bool) -> List[str]:
+    out = [n for f, n in T1_FIELDS.items() if a.get(f) != b.get(f)]
+    if a.get("graph") != b.get("graph"):
+        out.append("graph_content" if same_world else "state")
+    return sorted(set(out))
+
+
+def _diff_t2(a: dict, b: dict, same_world: bool) -> List[str]:
+    out = [n for f, n in T2_FIELDS.items() if a.get(f) != b.get(f)]
+    qa, qb = a.get("_q") or {}, b.get("_q") or {}
+    out += ["leaf:t2.quality." + k for k in sorted(set(qa) | set(qb)) if qa.get(k) != qb.get(k)]
+    if (a.get("_hyb") or {}) != (b.get("_hyb") or {}) or a.get("_gel") != b.get("_gel"):
+        out.append("hybrid")
+    if a.get("index") != b.get("index"):
+        out.append("index_content" if same_world else "state")
+    return sorted(set(out))
+
+
+def _origin(entries: List[Tuple[int, dict]], upto: int, key) -> Optional[Tuple[int, dict]]:
+    """the last MISS (= fill) with this real key before position `upto`"""
+    best = None
+    for pos, (ti, e) in enumerate(entries[:upto]):
+        if not e.get("hit") and key in (e.get("real") if isinstance(e.get("real"), list) and e.get("real") and
+                                         isinstance(e["real"][0], list) else [e.get("real")]):
+            best = (ti, e)
+    return best
+
+
+def readset_diff(case: dict, on: List[dict], off: List[dict], div: dict) -> Optional[Tuple[str, List[str]]]:
+    """(cache, differing read-set dimensions) of the stale hit behind the divergence, or None when the served entry
+    or its origin cannot be identified (then the op-name classifier is the fallback)."""
+    cache = cache_of(case["mode"], div)
+    j = div.get("turn", 0)
+    if j >= len(on):
+        return None
+    if cache == "t1":
+        x = on[j].get("x1")
+        if not x or not x.get("hit") or not x.get("real") or "__err__" in (x.get("raw") or {}):
+            return None
+        ents = [(ti, o["x1"]) for ti, o in enumerate(on) if o.get("x1")]
+        pos = [ti for ti, _ in ents].index(j)
+        org = _origin(ents, pos, x["real"][0])
+        if org is None:
+            return None
+        return cache, _diff_t1(org[1]["raw"], x["raw"], on[org[0]].get("w") == on[j].get("w"))
+    if cache == "t2":
+        xs = on[j].get("x2") or []
+        if div.get("stage") == "t2_rag":
+            cand = [e for e in xs[1:] if e.get("hit")]
+        else:
+            cand = [e for e in xs[:1] if e.get("hit")]
+        if not cand or not cand[0].get("real") or "__err__" in (cand[0].get("raw") or {}):
+            return None
+        x = cand[0]
+        ents = [(ti, e) for ti, o in enumerate(on) for e in (o.get("x2") or [])]
+        pos = next(i for i, (ti, e) in enumerate(ents) if e is x)
+        org = _origin(ents, pos, x["real"][0])
+        if org is None or "__err__" in (org[1].get("raw") or {}):
+            return None
+        return cache, _diff_t2(org[1]["raw"], x["raw"], on[org[0]].get("w") == on[j].get("w"))
+    # turn-level manager (one per state): the entry was stored by an earlier turn of the same state with the same key;
+    # the T2 read-set of the served turn is the one the uncached run computed for that turn
+    xt = [e for e in (on[j].get("xturn") or []) if e.get("hit") and e.get("ns") == "t2:semantic"]
+    if not xt or j >= len(off) or not (off[j].get("x2") or []):
+        return None
+    org_i = None
+    for i in range(j):
+        if on[i].get("w") != on[j].get("w"):
+            continue
+        for e in on[i].get("xturn") or []:
+            if not e.get("hit") and e.get("real") == xt[0].get("real") and (on[i].get("x2") or []):
+                org_i = i
+    if org_i is None:
+        return None
+    a, b = on[org_i]["x2"][0]["raw"], off[j]["x2"][0]["raw"]
+    if "__err__" in a or "__err__" in b:
+        return None
+    dims = []
+    for d in _diff_t2(a, b, True):
+        dims.append(TURN_CLASS.get(d, "config"))
+    return cache, sorted(set(dims))
+
+
+def classify2(case: dict, on: List[dict], off: List[dict], div: dict) -> Tuple[str, List[str]]:
+    """(finding key, all keys of the differing dimensions).  A divergence whose differing read-set dimensions are ALL
+    recorded findings of that cache is a known finding (first of them); any unrecorded dimension names the key."""
+    cache = cache_of(case["mode"], div)
+    if cache == "turn":
+        k = classify(case, div)
+        if k.endswith(":version_bump"):
+            return k, [k]
+    rd = readset_diff(case, on, off, div)
+    if rd is None:
+        k = classify(case, div)
+        return k, [k]
+    cache, dims = rd
+    if not dims:
+        k = f"C05:{cache}:hit_differs_from_fill"      # same read-set, different answer: the hit path itself is wrong
+        return k, [k]
+    known = OPEN_CLASSES.get(cache, [])
+    fresh = [d for d in dims if d not in known]
+    keys = [f"C05:{cache}:{d}" for d in dims]
+    return f"C05:{cache}:{(fresh or dims)[0]}", keys
 
 
 def shrink_candidates(case: dict):
